@@ -12,6 +12,7 @@ from ..core import hx, time_limit, Stalled
 from ..ref import wire, keys as RK, sig as RS
 from .. import pool, sigwork
 
+W0_COUNTER = 'C05_hashdata_of_parsed_signatures'   # thorough tier: the repository's own tests run under this property's always-on monitor
 LEVEL = 'exploration'
 RULE = ('case = (profile of hashed area, batch seed); per generated area: one evaluation for acceptance, one for the direct octet comparison, one per '
         'bit flip of the hashed region; non-trivial area = carries at least one subpacket beyond creation time + issuer fingerprint; '
